@@ -33,7 +33,7 @@ CHECKS = {
  "C06": _c("Props/C06.v: for each of the 47 identifiers the term regenerated from distance.py evaluates over R to the published closed form (Spec/MetricSpec.v) for every vector length; "
            "registry keys = whitelist; constructor plumbing. Regenerated and re-proved on every run (translator tie).",
            "5/C06", "Coq proof over a fail-closed Python-ast -> Coq translation regenerated every run; translator validation against the real functions",
-           "Trusted: Coq kernel; translator/py2coq.py (validated by eval_ir.py against the real functions on every run); real vs float: Props/C06_rounding.v and C06_rounding_shift.v bound 'up to rounding' explicitly (|fl - exact| <= ((1+u)^k(n) - 1) exact for every vector length n) for 8 plain and 19 decorated identifiers in the standard relative-error model (no underflow/overflow), refute such a bound for squared_chord/matusita/hellinger, and leave the log/exp and 1-ratio bodies unbounded; Props/C06_binary64.v proves (Flocq) that round-to-nearest-even binary64 without underflow is such a rounding with u = 2^-53 and bridges every PrimFloat operation to it; Props/C06_flt*.v: a PrimFloat evaluator of the regenerated terms (36 identifiers without log/exp) is compared bit for bit with DISTANCES on every run and proved to refine the rounded-real evaluator at binary64 rounding whenever every intermediate is finite."),
+           "Trusted: Coq kernel; translator/py2coq.py (validated by eval_ir.py against the real functions on every run); real vs float: Props/C06_rounding.v and C06_rounding_shift.v bound 'up to rounding' explicitly (|fl - exact| <= ((1+u)^k(n) - 1) exact for every vector length n) for 8 plain and 19 decorated identifiers in the standard relative-error model (no underflow/overflow), refute such a bound for squared_chord/matusita/hellinger, and leave the log/exp and 1-ratio bodies unbounded; Props/C06_binary64.v proves (Flocq) that round-to-nearest-even binary64 without underflow is such a rounding with u = 2^-53 and bridges every PrimFloat operation to it; Props/C06_flt*.v: a PrimFloat evaluator of the regenerated terms (36 identifiers without log/exp) is compared bit for bit with DISTANCES on every run and proved to refine the rounded-real evaluator at binary64 rounding whenever every intermediate is finite; Props/C06_capstone_binary64.v composes the chain for the 8 undecorated identifiers: the binary64 value the library returns is within ((1+2^-53)^k(n) - 1) of the closed form (no side condition for manhattan, chebyshev, hamming; a stated no-underflow condition for the others, shown necessary)."),
  "C07": _c("Props/C07.v: the regenerated decorator program contains no in-place addition, hence (frame theorem over a store of array buffers) a decorated call leaves every caller buffer "
            "unchanged and its value depends only on argument contents; the regenerated store-site table of all code reachable from fit/predict has no caller-rooted store.",
            "5/C07", "Coq proof (frame theorem for effect programs) over regenerated decorator/store tables; dynamic byte-comparison and read-only streams as failing-input search",
